@@ -317,8 +317,8 @@ def run(ctx):
                     RELABELS='{"same","shift","swap","far"}')
         prefix = ctx.work + '/sim'
         r = tlc.run('OpGraph', ctx.work, 'sim', workers=1, constants=simc, defs=dict(COEFS='{-1,1,2}', COEFS2='{1,-1,2}'),
-                    invariants=['DenOK', 'ConsistentOK'], simulate=dict(num=ctx.pick(100, 2500), file=prefix),
-                    depth=16, seed=ctx.seed + 1, timeout=1500)
+                    invariants=['DenOK', 'ConsistentOK'], simulate=dict(num=ctx.pick(100, 800), file=prefix),
+                    depth=16, seed=ctx.seed + 1, timeout=3000)
         ctx._account('sim', 'OpGraph', r, 'simulate')
         if not r.ok:
             raise common.SpecError(f'OpGraph simulation violated {r.violated}')
